@@ -8,6 +8,7 @@ import Driver.Net
 import Driver.Bcast
 import Driver.Inj
 import Driver.TSet
+import Driver.Slot
 /-!
 `nexo_driver <engine>` — folds the executable Lean model of an engine over request lines read from
 stdin and prints one response line per request.  A line starting with `case` resets the state.
@@ -36,5 +37,6 @@ def main (args : List String) : IO UInt32 := do
   | ["bcast"] => loop stdin stdout Driver.Bcast.step ({} : Driver.Bcast.DSt); return 0
   | ["tset"] => loop stdin stdout Driver.TSet.step ({} : Driver.TSet.DSt); return 0
   | ["inj"] => loop stdin stdout Driver.Inj.step ({} : Driver.Inj.DSt); return 0
+  | ["slot"] => loop stdin stdout Driver.Slot.stepD ({} : Driver.Slot.DSt); return 0
   | ["pq"] => loop stdin stdout Driver.PQ.step Driver.PQ.St.none; return 0
   | _ => IO.eprintln "usage: nexo_driver <engine>"; return 2
